@@ -384,10 +384,13 @@ class Polynomial(Vector):
         # Quadratic case is easy
         if self.order == 2:
             # a x^2 + b x + c = 0
-            (a,b,c) = self.to_scalars(recursive=recursive)
-            (x0,x1) = Scalar.solve_quadratic(a, b, c, recursive=recursive)
+            (a,b,c) = self.to_scalars(recursive=False)
+            (x0,x1) = Scalar.solve_quadratic(a, b, c, recursive=False)
             x1 = x1.mask_where(x1 == x0)        # mask duplicated solutions
-            return Qube.stack(x0,x1).sort(axis=0)
+            roots = Qube.stack(x0,x1).sort(axis=0)
+
+            # sort() returns an object without derivatives
+            return self._insert_root_derivs(roots, recursive)
 
         # Method for higher-order polynomials stolen from np.roots; see:
         #    https://github.com/numpy/numpy
@@ -472,8 +475,13 @@ class Polynomial(Vector):
             roots = Scalar(root_values, Qube.as_one_bool(root_mask))
             roots = roots.sort(axis=0)
 
-        # Deal with derivatives if necessary
-        #
+        return self._insert_root_derivs(roots, recursive)
+
+    #===========================================================================
+    def _insert_root_derivs(self, roots, recursive=True):
+        """Insert the derivatives of the roots, given those of the coefficients.
+        """
+
         # Sum_j c[j] x**j = 0
         #
         # Sum_j dc[j]/dt x**j + Sum_j c[j] j x**(j-1) dx/dt = 0
